@@ -1,5 +1,7 @@
 package comb
 
+import "math/bits"
+
 var maxSizes = []uint64{0, ^uint64(0), 4294967296, 3329022, 102570, 13467, 3612, 1449, 746, 453, 308, 227, 178, 147, 125, 110, 99, 90, 84, 79, 75, 72, 69, 68, 66, 65, 64, 63, 63, 62, 62, 62}
 var smallEntries = [][]uint64{{1}, {1}, {1, 2}, {1, 3}, {1, 4, 6}, {1, 5, 10}, {1, 6, 15, 20}, {1, 7, 21, 35}, {1, 8, 28, 56, 70}, {1, 9, 36, 84, 126}, {1, 10, 45, 120, 210, 252}, {1, 11, 55, 165, 330, 462}, {1, 12, 66, 220, 495, 792, 924}, {1, 13, 78, 286, 715, 1287, 1716}, {1, 14, 91, 364, 1001, 2002, 3003, 3432}, {1, 15, 105, 455, 1365, 3003, 5005, 6435}, {1, 16, 120, 560, 1820, 4368, 8008, 11440, 12870}, {1, 17, 136, 680, 2380, 6188, 12376, 19448, 24310}, {1, 18, 153, 816, 3060, 8568, 18564, 31824, 43758, 48620}, {1, 19, 171, 969, 3876, 11628, 27132, 50388, 75582, 92378}, {1, 20, 190, 1140, 4845, 15504, 38760, 77520, 125970, 167960, 184756}, {1, 21, 210, 1330, 5985, 20349, 54264, 116280, 203490, 293930, 352716}, {1, 22, 231, 1540, 7315, 26334, 74613, 170544, 319770, 497420, 646646, 705432}, {1, 23, 253, 1771, 8855, 33649, 100947, 245157, 490314, 817190, 1144066, 1352078}, {1, 24, 276, 2024, 10626, 42504, 134596, 346104, 735471, 1307504, 1961256, 2496144, 2704156}, {1, 25, 300, 2300, 12650, 53130, 177100, 480700, 1081575, 2042975, 3268760, 4457400, 5200300}, {1, 26, 325, 2600, 14950, 65780, 230230, 657800, 1562275, 3124550, 5311735, 7726160, 9657700, 10400600}, {1, 27, 351, 2925, 17550, 80730, 296010, 888030, 2220075, 4686825, 8436285, 13037895, 17383860, 20058300}, {1, 28, 378, 3276, 20475, 98280, 376740, 1184040, 3108105, 6906900, 13123110, 21474180, 30421755, 37442160, 40116600}, {1, 29, 406, 3654, 23751, 118755, 475020, 1560780, 4292145, 10015005, 20030010, 34597290, 51895935, 67863915, 77558760}, {1, 30, 435, 4060, 27405, 142506, 593775, 2035800, 5852925, 14307150, 30045015, 54627300, 86493225, 119759850, 145422675, 155117520}, {1, 31, 465, 4495, 31465, 169911, 736281, 2629575, 7888725, 20160075, 44352165, 84672315, 141120525, 206253075, 265182525, 300540195}, {1, 32, 496, 4960, 35960, 201376, 906192, 3365856, 10518300, 28048800, 64512240, 129024480, 225792840, 347373600, 471435600, 565722720, 601080390}}
 
@@ -104,17 +106,22 @@ func Unrank(rank, k int) []int {
 	comb := make([]int, k)
 	m := rank
 	for i := k - 1; i >= 0; i-- {
-		l := i + 1
-		b := 1
-		for b <= m {
-			b *= (l + 1)
-			b /= (l - i)
+		//Find the largest l such that b = C(l, i+1) <= m. The next coefficient is calculated in 128 bits as the intermediate product may overflow.
+		l := i
+		var b uint64
+		var next uint64 = 1
+		for m >= 0 && next <= uint64(m) {
+			b = next
 			l++
+			hi, lo := bits.Mul64(b, uint64(l+1))
+			if hi >= uint64(l-i) {
+				//C(l+1, i+1) doesn't fit in a uint64 so it is larger than m.
+				break
+			}
+			next, _ = bits.Div64(hi, lo, uint64(l-i))
 		}
-		comb[i] = l - 1
-		b *= (l - 1 - i)
-		b /= l
-		m -= b
+		comb[i] = l
+		m -= int(b)
 	}
 	return comb
 }
